@@ -133,6 +133,26 @@ CLAIMED = {
         note=STATIC_NOTE + 'Species names are distinct symbolic texts; coefficient values symbolic; E-format widths '
              'assume |exponent| < 100; column cosmetics are not decided.',
         ref='DESIGN.md section 4 C06'),
+    'C07': dict(
+        technique='abstract interpretation of the OpenMKM/Cantera writers and emitters: option values of every kind '
+                  'through _assign_yaml_val, write_yaml with yaml.dump as a recording serialiser, write_cti/'
+                  'write_thermo_yaml with marker objects, species/phase/reaction/BEP/interaction emitters over abstract '
+                  'strings and dictionaries; Python\'s evaluate-defaults-once semantics modelled for shared mutable defaults',
+        text='Decides (a) that an operating value of any kind (Python or NumPy number, string, string with units, list, '
+             'dict, bool) is written under its label - numbers with the unit of the unit system - or rejected, never '
+             'dropped, and omitted options stay out; (b) that write_yaml works with everything omitted and routes each '
+             'of 22 options alone and together to its documented section/label/unit and writes nothing else; (c) that '
+             'write_cti/write_thermo_yaml give every reaction and interaction a unique id before phases are written and '
+             'emit every species, reaction, phase, interaction and BEP exactly once with its final id, all sections '
+             'present; (d) that phases built without species do not share state and every way of adding species lists it '
+             'once with .phase set; (e) that Nasa/Nasa9/Shomate CTI and YAML entries list every coefficient and bound '
+             'once in order with name, composition and occupancy, phases list exactly their species and elements with '
+             'converted site density/density, SurfaceReaction entries carry equation, id and A/b/Ea equal to the '
+             'model\'s values in the requested units (adsorption, user Ea, computed Ea), interactions and BEPs carry '
+             'their members and converted parameters. It does NOT decide that the YAML loads or the CTI parses.',
+        note=STATIC_NOTE + 'yaml.dump and Cantera\'s CTI parser are outside the analysis; quote stripping by str.replace '
+             'and user/auto id collisions are not decided.',
+        ref='DESIGN.md section 4 C07'),
     'C08': dict(
         technique='abstract interpretation of Reaction/ChemkinReaction/SurfaceReaction with uninterpreted species and '
                   'symbolic stoichiometry; normal-form identities; effect check on caller dictionaries',
